@@ -194,6 +194,14 @@ def run_seq(params, ch):
 
 
 def parts(tier):
+    out = _parts(tier)
+    if tier == 'thorough':
+        for p in out:
+            p.deadline_s = 2400
+    return out
+
+
+def _parts(tier):
     pb = 2 if tier == 'quick' else 3
     out = [Part('threads-2-lines', [{'start': st, 'n': 2} for st in STARTS], run_threads, {'sched': pb, 'dev-order': 0}, split=2,
                 what='2 concurrent opens, line-level scheduling points in id allocation', bound='preemptions <= %d' % pb)]
